@@ -83,6 +83,19 @@ def cmp_word(ctx, name, got, L, w, case=None, **detail):
         ints = {nm: [[int(v) for v in row] for row in m]
                 for nm, m in zip(case["names"], case["mats"])}
         P, big = O.int_eval(ints, w, case["n"])
+        raw = np.asarray(got)
+        if case.get("intdtype") and raw.dtype.kind in "iu" and big * case["n"] < 2 ** 62:
+            # int64 generators, positive word: integer arithmetic all the way, exact also
+            # beyond 2^53 (where float64 products of the same matrices are not)
+            ctx.check(all(int(raw[i][j]) == int(P[i][j]) for i in range(case["n"])
+                          for j in range(case["n"])),
+                      name + ": exact integer image of a positive word over int64 generators",
+                      word=wstr(w), got=raw.tolist(), want=P)
+            if big >= 2 ** 53:
+                ctx.label("integer-image-beyond-2^53")
+        elif case.get("intdtype") and name.startswith("rho("):
+            ctx.check(raw.dtype.kind in "iu", name + ": the image of a positive word over "
+                      "int64 generators is integer-typed", dtype=str(raw.dtype))
         if big * case["n"] < 2 ** 52:
             want = np.array(P, dtype=float)
             exact = True
